@@ -37,14 +37,43 @@ pub(crate) fn any_announce() -> AnnounceMessage {
     }
 }
 
-/// a stored record satisfying the per-message part of the invariant
+/// a stored record satisfying the per-message part of the invariant.
+/// PAYLOAD ABSTRACTION of this unit: the list operations look only at the sender identity, the sequence id,
+/// stepsRemoved and the age of a message; these are arbitrary here, every other field of the 250-byte record is a
+/// fixed value (moving fully symbolic records through ArrayVec::retain/remove costs CBMC > 30 min and > 15 GB
+/// per harness). Independence of the list logic from the payload is an assumption of this unit; that the payload
+/// is carried along unchanged is checked where a message is handed out (c06_take_best..., c06_register...).
 fn any_stored_message(sender: PortIdentity, cutoff: i128) -> ForeignAnnounceMessage {
-    let mut m = any_announce();
+    let mut m = fixed_announce();
     m.header.source_port_identity = sender;
+    m.header.sequence_id = kani::any();
+    m.steps_removed = kani::any();
     kani::assume(m.steps_removed < 255);
     let age: i128 = kani::any();
     kani::assume(age >= 0 && age < cutoff);
     ForeignAnnounceMessage { header: m.header, message: m, age: dur_from_bits(age) }
+}
+/// an Announce with a fixed payload (see PAYLOAD ABSTRACTION)
+pub(crate) fn fixed_announce() -> AnnounceMessage {
+    AnnounceMessage {
+        header: Header::new(1),
+        origin_timestamp: Default::default(),
+        current_utc_offset: 37,
+        grandmaster_priority_1: 128,
+        grandmaster_clock_quality: Default::default(),
+        grandmaster_priority_2: 128,
+        grandmaster_identity: ClockIdentity([0xaa; 8]),
+        steps_removed: 1,
+        time_source: Default::default(),
+    }
+}
+/// new arrival: arbitrary sender, sequence id, stepsRemoved; fixed payload
+pub(crate) fn any_arrival() -> AnnounceMessage {
+    let mut a = fixed_announce();
+    a.header.source_port_identity = any_port_identity();
+    a.header.sequence_id = kani::any();
+    a.steps_removed = kani::any();
+    a
 }
 
 /// arbitrary valid list with up to `masters` records of up to `msgs` messages each (bounded generator:
@@ -183,7 +212,7 @@ fn c06_qualification_rule() {
     let own = any_port_identity();
     let interval = any_time_interval();
     let list = any_valid_list(own, interval, KM, KN);
-    let a = any_announce();
+    let a = any_arrival();
     let idx = index_of(&list, a.header.source_port_identity, KM);
     let last = idx.map(|i| list.foreign_masters[i].announce_messages.last().unwrap().header.sequence_id);
     let got = list.is_announce_message_qualified(&a);
@@ -201,7 +230,9 @@ fn c06_qualification_rule() {
             assert!(got);
         }
     }
-    assert!(got == want);
+    // open finding (C06): a repeated sequence id is accepted as newer; isolated in
+    // c06_finding_duplicate_sequence_id_counts, excluded here so that any other deviation is still reported
+    if last != Some(a.header.sequence_id) { assert!(got == want); }
     kani::cover!(got && last == Some(65535) && a.header.sequence_id == 0);
     kani::cover!(!got && last.is_some());
 }
@@ -215,7 +246,7 @@ fn c06_register_preserves_valid() {
     let own = any_port_identity();
     let interval = any_time_interval();
     let mut list = any_valid_list(own, interval, KM, KN);
-    let a = any_announce();
+    let a = any_arrival();
     let h = a.header;
     let age: i128 = kani::any();
     kani::assume(age >= 0 && age < spec_cutoff_bits(interval));
@@ -346,8 +377,7 @@ fn c06_register_at_capacity() {
     let own = PortIdentity { clock_identity: ClockIdentity([0xee; 8]), port_number: 1 };
     let interval = TimeInterval(fixed::types::I48F16::from_bits(1 << 40));
     let mut list = ForeignMasterList::new(interval, own);
-    let template = any_announce();
-    kani::assume(template.steps_removed < 255);
+    let template = fixed_announce();
     let mut i: u8 = 0;
     while i < MAX_FOREIGN_MASTERS as u8 {
         let mut a = template;
@@ -356,7 +386,7 @@ fn c06_register_at_capacity() {
         i += 1;
     }
     assert!(n_masters(&list) == MAX_FOREIGN_MASTERS);
-    let mut newcomer = any_announce();
+    let mut newcomer = any_arrival();
     kani::assume(newcomer.steps_removed < 255);
     let s = newcomer.header.source_port_identity;
     kani::assume(s.clock_identity != own.clock_identity && s.clock_identity.0[0] >= 8);
@@ -364,4 +394,21 @@ fn c06_register_at_capacity() {
     list.register_announce_message(&newcomer.header, &newcomer, dur_from_bits(0));
     assert!(n_masters(&list) == MAX_FOREIGN_MASTERS);
     assert!(index_of(&list, s, MAX_FOREIGN_MASTERS).is_none());
+}
+
+
+/// FINDING harness (expected to fail while the finding is open): an Announce repeating the sequence id of the
+/// newest stored message of its sender is not a new message and must not be qualified.
+#[kani::proof]
+#[kani::unwind(9)]
+fn c06_finding_duplicate_sequence_id_counts() {
+    let own = any_port_identity();
+    let interval = any_time_interval();
+    let list = any_valid_list(own, interval, 1, 1);
+    kani::assume(n_masters(&list) == 1);
+    let stored = &list.foreign_masters[0].announce_messages[0];
+    let mut a = any_arrival();
+    a.header.source_port_identity = stored.message.header.source_port_identity;
+    a.header.sequence_id = stored.header.sequence_id;
+    assert!(!list.is_announce_message_qualified(&a));
 }
